@@ -12,6 +12,7 @@ static char __parse_end_char;
 static inline void str_t__ctor_0(str_t *s) { s->data = 0; s->size = 0; s->cap = 0; s->absid = 0; }
 static inline str_t str_t__make_1(const char *lit) { str_t r; r.data = 0; r.size = 0; r.cap = 0; r.absid = 0; (void)lit; return r; }
 static inline str_t str_t__copy_val(str_t *s) { return *s; }
+static inline void str_t__copy(str_t *dst, str_t *src) { *dst = *src; }   /* copy construction: same abstract content */
 static inline const char *str_t__c_str(str_t *s) { return s->data ? s->data : &__parse_end_char; }
 static inline _Bool TMCG_ParseHelper__cm(str_t *s, str_t *magic, char sep) { (void)s; (void)magic; (void)sep; return nondet_bool(); }
 static inline _Bool TMCG_ParseHelper__nx(str_t *s, char sep) { (void)s; (void)sep; return nondet_bool(); }
@@ -20,6 +21,14 @@ size_t strtoul_calls; unsigned long strtoul_ret[4];   /* ghost log of the first 
 static inline unsigned long strtoul(const char *p, char **end, int base)
 { (void)p; (void)base; __parse_end_char = nondet_char(); *end = &__parse_end_char; unsigned long r = nondet_ulong();
   if (strtoul_calls < 4) strtoul_ret[strtoul_calls] = r; strtoul_calls = strtoul_calls + 1; return r; }
+#ifdef PARSE_STUB_MACROS
+/* Same stand-ins as expression macros: the writes become direct assignments to the caller's locals.  Needed where
+ * the local string lives inside a loop that contains another loop under contract: CBMC 6.11's contract
+ * instrumentation does not register such locals in the loop's write set (measured), so a write through a pointer
+ * is reported as not assignable although the object is a local of the loop body. */
+#define str_t__ctor_0(p) ((void)((p)->data = 0, (p)->size = 0, (p)->cap = 0, (p)->absid = 0))
+#define TMCG_ParseHelper__gs(s, sep, out) ((out)->absid = (long)nondet_ulong(), nondet_bool())
+#endif
 /* frame of the parse stubs (for assigns clauses) */
 #define PARSE_ASSIGNS __parse_end_char, strtoul_calls, __CPROVER_object_whole(strtoul_ret)
 #endif
